@@ -1,6 +1,8 @@
-(* extraction of the C17 executable model (Model/Number.v); ExtrOcamlBasic only *)
+(* extraction of the C17 executable model (Model/Number.v with the URL / e-mail tails of Model/C17Tails.v) and of the binary64 model of
+   NumberSuffix::correct_suffix_for (Proofs/C17Float.v, Flocq's BinarySingleNaN: computational part only, the proof
+   arguments are erased); ExtrOcamlBasic only *)
 Require Extraction.
 Require Import ExtrOcamlBasic.
-Require Import Base Overlap Suggestion Tables_number Number.
+Require Import Base Overlap Suggestion Tables_number Number C17Tails C17Float.
 Extraction Language OCaml.
-Extraction "../ocaml/gen/c17_model.ml" run_lex run_doc ctx_ok render mkuni.
+Extraction "../ocaml/gen/c17_model.ml" run_lex_full run_doc_full ctx_ok render mkuni run_f64_digits run_f64_parts run_f64_special.
